@@ -7,14 +7,17 @@ CONSTANTS
   TK = {5,30,53,1074}
   HiMax = 53
   ZTS = 100
-  ZT <- MCZT
+  TD = {3,12,300}
+  HiDecMax = 12
+  ZTCode = {10000,20067,30115,40153,50186,300601,530821,10743847}
+  ZDCode = {30309,120703,3003705}
   Delivery = "by_mode"
-  QNum = {9,12,14}
+  QNum = {9,14}
   QShift = 12
   QDen = {1,4}
   ENum = {6,12,14}
   EShift = 12
-  SNum = {3,25}
+  SNum = {3}
   SDen = {1,10}
   Export = FALSE
 INVARIANT ZOk
